@@ -42,14 +42,14 @@ SPECIAL = {("netbsd", "cmdline", "EINVAL"): "NetBSD returns EINVAL for zombies a
 META = dict(
     assumptions=[
         "native layer = programmable stubs: exactly one native call (the first one the method makes) fails with the chosen errno / Windows error code; the probes made by the error translation afterwards (process status, pid listing) answer according to the symbolic zombie/listed flags",
-        "ENOENT counts as 'no such process' on the procfs-based layers (Solaris, AIX), whose translation documents it; on the BSD/macOS/Windows layers ENOENT from a native call may either pass unchanged or be reported as NoSuchProcess (the statement does not say)",
+        "ENOENT counts as 'no such process' on the procfs-based layers (Solaris, AIX), whose translation documents it; and for an access to the process's own procfs entry on any layer (NetBSD's exe link); ENOENT from a native (sysctl-style) call of the BSD/macOS/Windows layers may either pass unchanged or be reported as NoSuchProcess (the statement does not say)",
         "record layout: the slot order of the native one-shot record is read from the comments of the C source's Py_BuildValue call of the current tree",
     ],
     stubs=["_psutil_bsd/_psutil_osx/_psutil_sunos/_psutil_aix/_psutil_windows/_psutil_posix replaced by stub modules with distinct integer constants", "os.readlink/open of the procfs-based layers fail like the native call"],
     bounds=dict(quick=dict(platforms=list(PLATFORMS), methods="every public method of each platform's Process class that needs no live subprocess", errno=ERRNOS, windows_codes=WINERRS, failures="one (the first native call)", pids=[0, 5]),
                 thorough=dict(platforms=list(PLATFORMS), methods="as quick", errno=ERRNOS, failures="one, at any of the first 3 native calls", pids=[0, 5])),
     outside=["subprocess-based methods (pfiles/procfiles) and Windows services", "the clause about exposed function/constant names (a static comparison of two lists, not a solver question)", "more than one native failure per call"],
-    labels=["no-such-process->NSP/Zombie", "permission->AD", "other-errors-unchanged", "pid0-AD", "bsd-record-slots", "osx-record-slots", "windows-record-slots", "windows-broadcast", "mac-padding"],
+    labels=["no-such-process->NSP/Zombie", "permission->AD", "other-errors-unchanged", "pid0-AD", "bsd-record-slots", "osx-record-slots", "windows-record-slots", "windows-broadcast", "mac-padding", "connection-record-slots"],
 )
 
 
@@ -178,7 +178,10 @@ def errors(ctx, plat_, pid, fail_at):
         return
     is_psutil = isinstance(exc, pkg.Error)
     perm = e in (errno.EPERM, errno.EACCES) or wname in ("ERROR_ACCESS_DENIED", "ERROR_PRIVILEGE_NOT_HELD")
-    nsp = e == errno.ESRCH or (family == "procfs" and e == errno.ENOENT)
+    # ENOENT from an access to the process's own procfs entry (os.readlink('/proc/<pid>/exe') on NetBSD) is the way a vanished
+    # process shows there -- the layer's own procfs wrapper documents it -- so it counts as 'no such process' on every layer
+    via_procfs = calls[fail_at].startswith("os.")
+    nsp = e == errno.ESRCH or (e == errno.ENOENT and (family == "procfs" or via_procfs))
     name_ok = exc.name == "cached" if is_psutil and not (plat_ == "sunos" and pid == 0) else True
     if perm:
         ctx.prove(type(exc) is pkg.AccessDenied and exc.pid == pid and name_ok, "permission->AD", detail=info)
@@ -477,6 +480,51 @@ def procfs_slots(ctx, plat_, cred_denied):
         ok += [ctx.eq(u.real, cred[0]), ctx.eq(u.effective, cred[1]), ctx.eq(u.saved, cred[2]), ctx.eq(g.real, cred[3]), ctx.eq(g.effective, cred[4]), ctx.eq(g.saved, cred[5])]
     ctx.prove(ctx.all(ok), "procfs-record-slots", detail=f"{plat_}: slots {slot}")
     ctx.prove(type(u).__name__ == "puids" and type(g).__name__ == "pgids", "documented-tuple-types", detail=f"{plat_}: uids() -> {type(u).__name__}, gids() -> {type(g).__name__}")
+
+
+# ---- connection records ----------------------------------------------------------------------------------------------------
+
+@harness("C20.connections", quick=[dict(plat_=p_) for p_ in ("windows", "freebsd", "openbsd", "netbsd", "aix", "sunos")])
+def connections(ctx, plat_):
+    """net_connections(): every slot of the native record reaches the tuple -- fd, family, type, the two addresses, the status
+    mapped through the layer's table, and in the system-wide listing the OWNER's pid whatever it is (0 = kernel / System Idle
+    Process included); the per-process listing has the six-field tuple without pid"""
+    import socket
+
+    pkg, PL, mods, lab, family = get(plat_)
+    owner = ctx.choice("owner", [0, 5, 4242])
+    fam = ctx.choice("family", [socket.AF_INET, socket.AF_INET6])
+    typ = ctx.choice("type", [socket.SOCK_STREAM, socket.SOCK_DGRAM])
+    fd = ctx.choice("fd", [-1, 0, 9])
+    st = ctx.choice("status", sorted(PL.TCP_STATUSES))
+    connected = ctx.flag("connected")
+    kind = ctx.choice("kind", ["inet", "all"] if plat_ != "sunos" else ["inet", "inet4" if fam == socket.AF_INET else "inet6"])      # Solaris 'all' adds pfiles(1) output: outside
+    laddr = ("10.0.0.1", 80) if fam == socket.AF_INET else ("fe80::1", 80)
+    raddr = (("10.0.0.2", 443) if fam == socket.AF_INET else ("fe80::2", 443)) if connected else ()
+    rec = (fd, int(fam), int(typ), laddr, raddr, st, owner)
+    setup_probes(PL, lab, family, False, True)
+    lab.windows = family == "win"
+    lab.answers["net_connections"] = lambda *a: [rec]
+    lab.answers["proc_net_connections"] = lambda *a: [rec[:6]]
+    if hasattr(PL, "os"):
+        PL.os = _OsFail(PL.os, lab, "os")
+        lab.answers.update({"os.stat": lambda *a: os.stat("/")})
+    lab.arm()
+    system = ctx.guard("connection-record-slots", PL.net_connections, kind)
+    lab.arm()
+    proc = PL.Process(5)
+    proc._name = "cached"
+    per = ctx.guard("connection-record-slots", proc.net_connections, kind)
+    if typ == socket.SOCK_STREAM or plat_ == "sunos":
+        status = PL.TCP_STATUSES[st]
+    else:
+        status = pkg.CONN_NONE
+    A = pkg._common.addr
+    want6 = (fd, socket.AddressFamily(fam), socket.SocketKind(typ), A(*laddr), A(*raddr) if raddr else (), status)
+    info = f"{plat_}: native record {rec}"
+    ctx.prove(len(system) == 1 and type(system[0]).__name__ == "sconn" and tuple(system[0]) == want6 + (owner,) and system[0].pid == owner,
+              "connection-record-slots", detail=f"{info}; system-wide -> {system}")
+    ctx.prove(len(per) == 1 and type(per[0]).__name__ == "pconn" and tuple(per[0]) == want6, "connection-record-slots", detail=f"{info}; per-process -> {per}")
 
 
 # ---- front end post-processing --------------------------------------------------------------------------------------------
